@@ -526,6 +526,9 @@ def real_decode(data, cfg=None, allow_plugins=True):
             eid, text = peltool.parsePEL(DataStream(data, byte_order='big', is_signed=False), c, False)
     except common.Hang as e:
         return ('error', 'Hang', str(e), out.getvalue())
+    except SystemExit as e:
+        # the decoder must fail with an ordinary error: an exit from inside parsePEL(exit_on_error=False) is an outcome of its own
+        return ('error', 'SystemExit', 'exit(%r) from inside the decoder' % (e.code,), out.getvalue())
     except Exception as e:  # noqa
         return ('error', type(e).__name__, str(e)[:100], out.getvalue())
     if not text:
